@@ -63,7 +63,7 @@ def generate(seed, tier):
     if rng.random() < 0.08:
         spec = _gen.rand_hypergraph_spec(rng, nmin=14, nmax=20, emin=8, emax=20, smin=2, smax=10, singletons=0.1)
     else:
-        spec = _gen.rand_hypergraph_spec(rng, singletons=0.15)
+        spec = _gen.rand_hypergraph_spec(rng, singletons=0.15, labels=rng.choice([None] * 6 + ["mixnum"]))
     case = {"mode": "undirected", "seed": seed, "q": q, "spec": spec,
             "label": rng.choice(["edge", "stub"]), "detailed": rng.random() < 0.6,
             "K": rng.randint(1, 40 if tier == "quick" else 400)}
